@@ -26,7 +26,13 @@ Bad(e) ==
     [] e.ev = "SrvReply" ->
          T(e.lib /\ e.respauth # MD5(RespInput(e.status, h.auth2, h.secret)), "C15.defined.response")
     [] e.ev = "CliDecode" ->
-         T(e.decerr \/ e.respauth2 # h.resp \/ e.status2 # h.status, "C15.survives.response")
+         \* (only the trailing 0x00 octets of the authenticator missing is the recorded SMGP Login_Resp finding;
+         \*  anything else that does not survive is a different violation)
+         IF ~e.decerr /\ e.status2 = h.status /\ e.respauth2 # h.resp /\ Len(e.respauth2) < Len(h.resp)
+            /\ e.respauth2 = SubSeq(h.resp, 1, Len(e.respauth2))
+            /\ \A i \in (Len(e.respauth2) + 1)..Len(h.resp) : h.resp[i] = 0
+           THEN {"C15.survives.response.trailing_nul"}
+           ELSE T(e.decerr \/ e.respauth2 # h.resp \/ e.status2 # h.status, "C15.survives.response")
     [] e.ev = "CliVerify" ->
          T(e.recomputed # e.received \/ MD5(RespInput(h.status, h.auth, h.secret)) # e.received, "C15.verifies.response")
 
